@@ -14,8 +14,21 @@ import Golib.Conf.Reload
 
 namespace Conf
 
+/-- what a writer section does to the map: a store `m[k] = v`, or the replacement by a fresh empty
+    map (`this.m = make(…)`, the reset when the file disappeared) -/
+inductive WOp where
+  | store (k v : Str)
+  | clear
+  deriving Repr, DecidableEq
+
+def WOp.apply (m : KV) : WOp → KV
+  | .store k v => put m k v
+  | .clear => []
+
+def storesOf (kvs : KV) : List WOp := kvs.map (fun p => .store p.1 p.2)
+
 inductive WPh where
-  | idle | busy (todo : KV) | done
+  | idle | busy (todo : List WOp) | done
   deriving Repr, DecidableEq
 
 inductive RPh where
@@ -40,12 +53,12 @@ def RPh.isBusy : RPh → Bool
   | .busy _ => true
   | _ => false
 
-def stepM (locked : Bool) (kvs : KV) (reads : List Str) (s : MSt) : Who → MSt
+def stepM (locked : Bool) (kvs : List WOp) (reads : List Str) (s : MSt) : Who → MSt
   | .writer =>
     match s.w with
     | .idle => if locked && s.r.isBusy then s else { s with w := .busy kvs }
     | .busy [] => { s with w := .done }
-    | .busy ((k, v) :: rest) => { s with m := put s.m k v, w := .busy rest }
+    | .busy (op :: rest) => { s with m := op.apply s.m, w := .busy rest }
     | .done => s
   | .reader =>
     match s.r with
@@ -56,13 +69,13 @@ def stepM (locked : Bool) (kvs : KV) (reads : List Str) (s : MSt) : Who → MSt
 
 def initM (old : KV) : MSt := { w := .idle, r := .idle, m := old, obs := [] }
 
-def runM (locked : Bool) (old kvs : KV) (reads : List Str) (sched : List Who) : MSt :=
+def runM (locked : Bool) (old : KV) (kvs : List WOp) (reads : List Str) (sched : List Who) : MSt :=
   sched.foldl (stepM locked kvs reads) (initM old)
 
-def storeAll (old kvs : KV) : KV := kvs.foldl (fun m p => put m p.1 p.2) old
+def storeAll (old : KV) (kvs : List WOp) : KV := kvs.foldl WOp.apply old
 
 /-- the invariant of the locked machine -/
-def LInv (old kvs : KV) (reads : List Str) (s : MSt) : Prop :=
+def LInv (old : KV) (kvs : List WOp) (reads : List Str) (s : MSt) : Prop :=
   (match s.w with
    | .idle => s.m = old
    | .busy todo => ∃ dn, kvs = dn ++ todo ∧ s.m = storeAll old dn
@@ -73,10 +86,10 @@ def LInv (old kvs : KV) (reads : List Str) (s : MSt) : Prop :=
    | .done => s.obs = reads.map (lookup old) ∨ s.obs = reads.map (lookup (storeAll old kvs))) ∧
   (s.w.isBusy = true → s.r.isBusy = false)
 
-theorem storeAll_append (old a b : KV) : storeAll old (a ++ b) = storeAll (storeAll old a) b := by
+theorem storeAll_append (old : KV) (a b : List WOp) : storeAll old (a ++ b) = storeAll (storeAll old a) b := by
   simp [storeAll, List.foldl_append]
 
-theorem linv_step (old kvs : KV) (reads : List Str) (s : MSt) (who : Who)
+theorem linv_step (old : KV) (kvs : List WOp) (reads : List Str) (s : MSt) (who : Who)
     (h : LInv old kvs reads s) : LInv old kvs reads (stepM true kvs reads s who) := by
   obtain ⟨w, r, m, obs⟩ := s
   obtain ⟨hw, hr, hx⟩ := h
@@ -104,10 +117,9 @@ theorem linv_step (old kvs : KV) (reads : List Str) (s : MSt) (who : Who)
         | busy t => simp [RPh.isBusy] at hrb
         | done => exact hr
       | cons p rest =>
-        obtain ⟨k, v⟩ := p
         obtain ⟨dn, e1, e2⟩ := hw
         simp only [stepM]
-        refine ⟨⟨dn ++ [(k, v)], by simp [e1], ?_⟩, ?_, fun _ => hrb⟩
+        refine ⟨⟨dn ++ [p], by simp [e1], ?_⟩, ?_, fun _ => hrb⟩
         · simp only [] at e2
           rw [storeAll_append, ← e2]; simp [storeAll]
         · cases r with
@@ -145,7 +157,7 @@ theorem linv_step (old kvs : KV) (reads : List Str) (s : MSt) (who : Who)
         simp [e2]
     | done => simpa [stepM] using ⟨hw, hr, hx⟩
 
-theorem linv_run (old kvs : KV) (reads : List Str) (sched : List Who) :
+theorem linv_run (old : KV) (kvs : List WOp) (reads : List Str) (sched : List Who) :
     LInv old kvs reads (runM true old kvs reads sched) := by
   unfold runM
   have h0 : LInv old kvs reads (initM old) := ⟨rfl, rfl, by simp [initM, WPh.isBusy]⟩
@@ -156,7 +168,7 @@ theorem linv_run (old kvs : KV) (reads : List Str) (sched : List Who) :
 
 /-- under the lock discipline a finished read section saw the complete old map or the
     complete new map, for every schedule -/
-theorem locked_no_torn_read (old kvs : KV) (reads : List Str) (sched : List Who)
+theorem locked_no_torn_read (old : KV) (kvs : List WOp) (reads : List Str) (sched : List Who)
     (hdone : (runM true old kvs reads sched).r = .done) :
     (runM true old kvs reads sched).obs = reads.map (lookup old) ∨
     (runM true old kvs reads sched).obs = reads.map (lookup (storeAll old kvs)) := by
@@ -165,7 +177,7 @@ theorem locked_no_torn_read (old kvs : KV) (reads : List Str) (sched : List Who)
   exact h
 
 /-- … and the map it leaves behind is the merged one -/
-theorem locked_final_map (old kvs : KV) (reads : List Str) (sched : List Who)
+theorem locked_final_map (old : KV) (kvs : List WOp) (reads : List Str) (sched : List Who)
     (hdone : (runM true old kvs reads sched).w = .done) :
     (runM true old kvs reads sched).m = storeAll old kvs := by
   have h := (linv_run old kvs reads sched).1
